@@ -158,9 +158,12 @@ Proof.
   rewrite E0. unfold fftfreq_bin. destruct (1 <=? (n - 1) / 2)%Z eqn:C.
   - assert (A : inject_Z 1 * v - inject_Z 0 * v == v) by (change (inject_Z 1) with 1; change (inject_Z 0) with 0; ring).
     rewrite A. rewrite Qabs_pos by lra. reflexivity.
-  - apply Z.leb_gt in C. assert (n = 2)%Z by lia. subst n.
-    assert (A : inject_Z (1 - 2) * v - inject_Z 0 * v == - v)
-      by (change (inject_Z (1 - 2)) with (-1 # 1); change (inject_Z 0) with 0; ring).
+  - apply Z.leb_gt in C.
+    assert (E2 : (1 - n = -1)%Z).
+    { pose proof (Z.div_mod (n - 1) 2 ltac:(lia)). pose proof (Z.mod_pos_bound (n - 1) 2 ltac:(lia)). lia. }
+    rewrite E2.
+    assert (A : inject_Z (-1) * v - inject_Z 0 * v == - v)
+      by (change (inject_Z (-1)) with (-1 # 1); change (inject_Z 0) with 0; ring).
     rewrite A. rewrite Qabs_opp, Qabs_pos by lra. reflexivity.
 Qed.
 
@@ -306,4 +309,73 @@ Theorem kcentre_single b c : 0 < c ->
 Proof.
   intro Hc. unfold kcentre, kaxis. simpl. unfold i2p1, cell_of, half_cell, fst3, snd3, thd3. simpl.
   split; [reflexivity|]. split; field; lra.
+Qed.
+
+(* ---------- Mesh.ifftn along one axis ---------- *)
+(* for any k-cell size ck > 0 and count s >= 2 the real-space axis has s cells of size
+   1/(s ck) and, after recentring, is symmetric about the origin *)
+Lemma iaxis_general s ck : (2 <= s)%Z -> 0 < ck ->
+  exists lo hi, iaxis s ck = Some (lo, hi, s) /\ lo < hi /\
+    cell_of lo hi s == 1 / (inject_Z s * ck) /\
+    lo - (1 # 2) * (lo + hi) == - (hi - (1 # 2) * (lo + hi)).
+Proof.
+  intros Hs Hck. unfold iaxis.
+  destruct (s =? 1)%Z eqn:E1; [apply Z.eqb_eq in E1; lia|].
+  destruct (s <=? 0)%Z eqn:E2; [apply Z.leb_le in E2; lia|].
+  rewrite (fftfreq_length s ck Hs).
+  eexists; eexists; split; [reflexivity|].
+  pose proof (kaxis_full_eq s ck Hs Hck) as K. pose proof (kcell_full s ck Hs Hck) as KC.
+  unfold kaxis in K, KC. rewrite E1 in K, KC. unfold fst3, snd3, thd3 in K, KC. simpl in K, KC.
+  destruct K as [K1 [K2 K3]]. rewrite K3 in KC.
+  pose proof (v_pos s ck Hs Hck) as Hv. pose proof (nq_pos s Hs) as Hq.
+  pose proof (half_sum s) as HS. pose proof (half_bounds s Hs) as HB.
+  split; [|split].
+  - rewrite K1, K2.
+    assert (0 <= inject_Z ((s - 1) / 2)) by (change 0 with (inject_Z 0); rewrite <- Zle_Qle; lia).
+    assert (0 <= inject_Z (s / 2)) by (change 0 with (inject_Z 0); rewrite <- Zle_Qle; lia).
+    set (w := 1 / (inject_Z s * ck)) in *.
+    assert (0 <= inject_Z ((s - 1) / 2) * w) by (apply Qmult_le_0_compat; lra).
+    assert (0 <= inject_Z (s / 2) * w) by (apply Qmult_le_0_compat; lra).
+    assert (w / 2 + w / 2 == w) by field. lra.
+  - exact KC.
+  - ring.
+Qed.
+
+Lemma iaxis_single ck : 0 < ck ->
+  iaxis 1 ck = Some (0, 1 / ck, 1%Z) /\ cell_of 0 (1 / ck) 1 == 1 / ck.
+Proof. intro H. split; [reflexivity|]. unfold cell_of. field. lra. Qed.
+
+(* Mesh.ifftn o Mesh.fftn along one axis: original count, original cell, centred at 0.
+   [rl] = last axis of the real transform (then the original count must be supplied). *)
+Theorem axis_roundtrip (rl : bool) n c : (1 <= n)%Z -> 0 < c ->
+  let ka := kaxis rl n c in
+  let ck := cell_of (fst3 ka) (snd3 ka) (thd3 ka) in
+  exists lo hi, iaxis n ck = Some (lo, hi, n) /\ lo < hi /\ cell_of lo hi n == c /\
+    lo - (1 # 2) * (lo + hi) == - (hi - (1 # 2) * (lo + hi)) /\
+    (hi - (1 # 2) * (lo + hi)) - (lo - (1 # 2) * (lo + hi)) == inject_Z n * c.
+Proof.
+  intros Hn Hc ka ck.
+  destruct (Z.eq_dec n 1) as [->|Hne].
+  - assert (Eck : ck == 1 / c).
+    { unfold ck, ka, kaxis. simpl. unfold cell_of, fst3, snd3, thd3. simpl. field. lra. }
+    assert (Hck : 0 < ck) by (rewrite Eck; apply Qdiv_pos; lra).
+    exists 0, (1 / ck). split; [reflexivity|].
+    assert (E : 1 / ck == c) by (rewrite Eck; field; lra).
+    split; [rewrite E; lra|]. split; [unfold cell_of; rewrite E; field|].
+    split; [ring|]. rewrite E. change (inject_Z 1) with 1. ring.
+  - assert (H2 : (2 <= n)%Z) by lia.
+    pose proof (nq_pos n H2) as Hq.
+    assert (Eck : ck == 1 / (inject_Z n * c)).
+    { unfold ck, ka. destruct rl; [apply kcell_real | apply kcell_full]; assumption. }
+    assert (Hck : 0 < ck) by (rewrite Eck; apply (v_pos n c H2 Hc)).
+    destruct (iaxis_general n ck H2 Hck) as [lo [hi [E [Hlt [Ec Es]]]]].
+    exists lo, hi. split; [exact E|]. split; [exact Hlt|].
+    assert (Ec2 : cell_of lo hi n == c).
+    { rewrite Ec, Eck. field. lra. }
+    split; [exact Ec2|]. split; [exact Es|].
+    unfold cell_of in Ec2.
+    assert (hi - lo == inject_Z n * c).
+    { assert (A : (hi - lo) / inject_Z n * inject_Z n == hi - lo) by (field; lra).
+      rewrite <- A, Ec2. ring. }
+    lra.
 Qed.
